@@ -52,7 +52,7 @@ pub fn replay_other(_prop: &str, kind: &str, case: &serde_json::Value) -> Option
             Some(grids::c12_loop_case(n, mix).map(|v| vec![(0, v.clause, v.detail)]).unwrap_or_default())
         }
         "bytes" | "units" | "value" | "bytes_range" => values::replay_value(case),
-        "niche" | "clone_sweep" | "ctor" | "decoder" | "short_value" | "global_refusal" => sweeps::replay_sweep(kind, case),
+        "niche" | "clone_sweep" | "ctor" | "decoder" | "decoder_growth" | "short_value" | "global_refusal" => sweeps::replay_sweep(kind, case),
         _ => None,
     }
 }
